@@ -231,4 +231,18 @@ def run_case(c):
         fail('dense', f'{call}: |as_matrix - reference| = {np.linalg.norm(M - ref):.3e}, reference norm {nref:.3e}')
     if not oracle.close(M, M.conj().T):
         fail('hermitian', f'{call}: |H - H^dagger| = {np.linalg.norm(M - M.conj().T):.3e}, norm {np.linalg.norm(M):.3e}')
+    # history: the first result is overwritten in place (tensors and quantum numbers), then the constructor is called again with the
+    # same arguments ("for every parameter value": also the second time)
+    if c['seed'] % 3 == 0:
+        try:
+            for T_ in op.A:
+                T_ *= 0
+            op.zero_qnumbers()
+            op2 = build()
+            M2 = _checked_dense(op2, name, call + ' (second call after the first result was overwritten in place)', dloc, L, fail)
+            if M2 is not None and not oracle.close(M2, ref):
+                fail('dense', f'{call}: the second call with the same arguments, after the first result was overwritten in place, deviates from the reference by '
+                              f'{np.linalg.norm(M2 - ref):.3e}')
+        except Exception as e:
+            fail('returns', f'{call}: second call raised {type(e).__name__}: {e}')
     return done()
